@@ -167,14 +167,14 @@ theorem iters_rev (lo hi s : Int) (hsp : spurious lo hi s = false) :
     iters (hi - (hi - lo).tmod s) lo (-s) = (iters lo hi s).reverse := by
   rcases lt_trichotomy s 0 with hs | hs | hs
   · have h := iters_rev_pos (lo := -lo) (hi := -hi) (s := -s) (by omega) (by rw [spurious_neg]; exact hsp)
-    rw [revStart_neg, iters_neg lo hi s] at h
+    rw [revStart_neg, iters_neg lo hi s, neg_neg] at h
     have h2 := iters_neg (hi - (hi - lo).tmod s) lo (-s)
     rw [neg_neg] at h2
     rw [h2, ← List.map_reverse] at h
-    have inj : Function.Injective (fun x : Int => -x) := fun a b hab => by simpa using hab
-    exact List.map_injective_iff.mpr inj h
+    have inj : ∀ a b : Int, (fun x : Int => -x) a = (fun x : Int => -x) b → a = b := fun a b hab => by simpa using hab
+    exact (List.map_inj_right inj).mp h
   · subst hs
-    simp [iters, trip]
+    simp [iters, trip, iterVals]
   · exact iters_rev_pos hs hsp
 
 /-- literal unit steps take the branch without offset -/
@@ -198,15 +198,15 @@ theorem iters_spurious (lo hi s : Int) (hsp : spurious lo hi s = true) :
   rcases hsp with ⟨⟨h0, h1⟩, h2⟩ | ⟨⟨h0, h1⟩, h2⟩
   · exact iters_spurious_pos h0 h1 h2
   · have h := iters_spurious_pos (lo := -lo) (hi := -hi) (s := -s) (by omega) (by omega) (by omega)
-    rw [revStart_neg, iters_neg lo hi s] at h
+    rw [revStart_neg, iters_neg lo hi s, neg_neg] at h
     have h2' := iters_neg (hi - (hi - lo).tmod s) lo (-s)
     rw [neg_neg] at h2'
     rw [h2'] at h
     obtain ⟨ha, hb⟩ := h
     refine ⟨List.map_eq_nil_iff.mp ha, ?_⟩
-    have inj : Function.Injective (fun x : Int => -x) := fun a b hab => by simpa using hab
+    have inj : ∀ a b : Int, (fun x : Int => -x) a = (fun x : Int => -x) b → a = b := fun a b hab => by simpa using hab
     have : List.map (fun x : Int => -x) (iters (hi - (hi - lo).tmod s) lo (-s)) = List.map (fun x => -x) [lo] := by
       simpa using hb
-    exact List.map_injective_iff.mpr inj this
+    exact (List.map_inj_right inj).mp this
 
 end C19
